@@ -860,9 +860,6 @@ def vars_str(variables, params):
         if kinds.get(n) in ("vp", "vk"):
             continue
         try:
-            if type(v).__name__ == "KnownValue" and v.val is Ellipsis:
-                out.append("%s=(newtype 4095 0)" % n)   # the model's stand-in for KnownValue(Ellipsis)
-                continue
             out.append("%s=%s" % (n, V.ty_sexp(V.value_to_ty(v))))
         except Exception:
             out.append("%s=UNENC" % n)
@@ -1145,8 +1142,10 @@ def evaluate(ctx, cases, with_model=True):
                         cls=pick(dcls, UNION_CLASSES), conforms=conforms, stream="metamorphic")
 
 
-UNION_CLASSES = ["ellipsisDefault", "boolOpDrop", "fallThrough", "overlapNarrow", "retyped"]
-NONUNION_CLASSES = ["ellipsisDefault", "retyped"]
+# remaining exception classes (ellipsisDefault, boolOpDrop, overlapNarrow were repaired in /repo by d1ebe72, 4713671,
+# faaff0c: their witnesses stay in corpus/C20.jsonl and a re-appearance has no class, i.e. is a new violation)
+UNION_CLASSES = ["fallThrough", "retyped"]
+NONUNION_CLASSES = ["retyped"]
 
 
 def run(ctx):
